@@ -1,6 +1,7 @@
 package migrations
 
 import (
+	"github.com/nyaruka/goflow/flows/definition/legacy"
 	"sort"
 	"strings"
 
@@ -111,4 +112,39 @@ func VerifC08_Clone() {
 	b := run()
 	zzverif.Cover("cloned")
 	zzverif.Assert(a == b, "cloning the same definition twice with the same mapping gave different results")
+}
+
+// VerifC08_LegacyMigration: a legacy-format flow whose reply action has a
+// message and quick replies in three languages — among them the
+// pseudo-language "base" next to the real base language — is migrated by
+// legacy.MigrateDefinition to byte-identical JSON on every execution whatever
+// the iteration order of the language maps the legacy migration ranges over.
+// cover: migrated
+func VerifC08_LegacyMigration() {
+	third := []string{"fra", "aaa", "zzz"}[zzverif.Choice("third-language", 3)] // (sorts before / after "base" and "eng")
+	legacyDef := strings.ReplaceAll(`{"rule_sets": [],
+	"action_sets": [
+	 {"y": 0, "x": 100, "destination": null, "uuid": "029c3266-39c1-4850-9d71-7e008dae2e65", "actions": [
+	   {"msg": {"eng": "Hello", "fra": "Bonjour", "base": "Hi"},
+	    "quick_replies": [{"eng": "Yes", "fra": "Oui", "base": "Yeah"}, {"eng": "No", "fra": "Non", "base": "Nope"}], "type": "reply", "uuid": "623c784f-5277-4dbc-9568-f7984dbc5c7b"}],
+	  "exit_uuid": "21eab42d-8cfd-4e1f-a4a0-cb7d069bc366"}],
+	"base_language": "eng", "flow_type": "F", "entry": "029c3266-39c1-4850-9d71-7e008dae2e65",
+	"metadata": {"uuid": "40730a2d-edaa-4ff0-9d2f-81ca2131ddfe", "saved_on": null, "name": "Translated"}, "version": "11.11"}`, "fra", third)
+	run := func() string {
+		zzverif.ResetEnv()
+		out, err := legacy.MigrateDefinition([]byte(legacyDef), "")
+		zzverif.Assert(err == nil, "a legacy definition could not be migrated")
+		return string(out)
+	}
+	first := run()
+	zzverif.Cover("migrated")
+	zzverif.SymbolicMapOrder(true)
+	repeats := 1
+	if !zzverif.Symbolic() {
+		repeats = 200
+	}
+	for n := 0; n < repeats; n++ {
+		zzverif.Assert(run() == first, "migrating the same legacy definition gives different output on different executions")
+	}
+	zzverif.SymbolicMapOrder(false)
 }
